@@ -181,6 +181,16 @@ def with_hoisting(eng, node, st, attr, cont):
     return outs
 
 
+def st_AnnAssign(eng, node, st):
+    """`x: T = v` is `x = v` (annotations are dropped, as everywhere else); a bare `x: T` declares nothing"""
+    if node.value is None:
+        return [(NORMAL, st)]
+    plain = ast.Assign(targets=[node.target], value=node.value)
+    ast.copy_location(plain, node)
+    ast.fix_missing_locations(plain)
+    return st_Assign(eng, plain, st)
+
+
 def st_Assign(eng, node, st):
     h = with_hoisting(eng, node, st, 'value', st_Assign)
     if h is not None:
@@ -256,7 +266,7 @@ def st_Raise(eng, node, st):
 
 
 def st_Assert(eng, node, st):
-    c = truth(eng.ev(node.test, st))
+    c = eng.truth_of(st, eng.ev(node.test, st))
     outs = []
     flush_raises(eng, st, outs)
     eng.oblige(st, "assert@L%d" % node.lineno, 'assert', c, node)
@@ -267,7 +277,7 @@ def st_Assert(eng, node, st):
 
 def st_If(eng, node, st):
     cv = eng.ev(node.test, st)
-    c = truth(cv) if cv.k != 'bool' else cv.t
+    c = eng.truth_of(st, cv) if cv.k != 'bool' else cv.t
     outs = []
     flush_raises(eng, st, outs)
     c = z3.simplify(c)
@@ -511,8 +521,10 @@ def check_inv(eng, st, lc, ordn, phase, node, extra_env=None):
         except (ContractError, Unsupported) as e:
             # the clause is not even well-typed on this path (e.g. an accumulator that is still the int 0):
             # acceptable only if the path is infeasible
+            # (kind deadpath: if the path is feasible the loop contract simply no longer matches the code -- e.g. a renamed
+            # local -- and nothing is decided about the property)
             eng.oblige(st, "loop%s:%s:%s:path-where-clause-is-ill-typed-is-infeasible" % (ordn, label, phase),
-                       'inv:' + phase, z3.BoolVal(False), node)
+                       'deadpath', z3.BoolVal(False), node)
             continue
         eng.oblige(st, "loop%s:%s:%s" % (ordn, label, phase), 'inv:' + phase, t, node, hints=lc.get('hints', ()))
 
@@ -537,7 +549,7 @@ def run_loop(eng, node, st, ordn, lc, idxname, d, guard_fn, bind_fn, step_fn, ex
     # 1. invariant holds on entry (optional proof steps first)
     for label, clause in f.contract.labelled(lc.get('lemmas_init', []), 'initstep'):
         t = eval_bool(eng, clause, st.env, st, old=(f.entry_env, f.entry_heap))
-        eng.oblige(st, "loop%s:%s" % (ordn, label), 'assert', t, node)
+        eng.oblige(st, "loop%s:%s" % (ordn, label), 'proofstep', t, node)
         st.assume(t)
     check_inv(eng, st, lc, ordn, 'init', node)
     entry_alloc = st.heap.alloc
@@ -545,7 +557,7 @@ def run_loop(eng, node, st, ordn, lc, idxname, d, guard_fn, bind_fn, step_fn, ex
         mods = calls.eval_assign_targets(eng, lc.get('modifies', []), st.env, st)
     except ContractError as e:
         # the loop contract does not type-check in this state: only acceptable on an infeasible path
-        eng.oblige(st, "loop%s:path-where-loop-contract-is-ill-typed-is-infeasible" % ordn, 'inv:init', z3.BoolVal(False), node)
+        eng.oblige(st, "loop%s:path-where-loop-contract-is-ill-typed-is-infeasible" % ordn, 'deadpath', z3.BoolVal(False), node)
         return []
     mods_frame = []
     from .verify import frame_entry
@@ -588,7 +600,7 @@ def run_loop(eng, node, st, ordn, lc, idxname, d, guard_fn, bind_fn, step_fn, ex
     ex.trail.append("loop%s:exit" % ordn)
     for label, clause in f.contract.labelled(lc.get('lemmas_exit', []), 'exitstep'):
         t = eval_bool(eng, clause, ex.env, ex, old=(f.entry_env, f.entry_heap))
-        eng.oblige(ex, "loop%s:%s" % (ordn, label), 'assert', t, node)
+        eng.oblige(ex, "loop%s:%s" % (ordn, label), 'proofstep', t, node)
         ex.assume(t)
     # 4. body branch
     body = head
@@ -618,7 +630,7 @@ def run_loop(eng, node, st, ordn, lc, idxname, d, guard_fn, bind_fn, step_fn, ex
             # intermediate proof steps: each is an obligation of its own, then available as a hypothesis
             for label, clause in f.contract.labelled(lc.get('lemmas_end', []), 'step'):
                 t = eval_bool(eng, clause, s.env, s, old=(f.entry_env, f.entry_heap))
-                eng.oblige(s, "loop%s:%s" % (ordn, label), 'assert', t, node)
+                eng.oblige(s, "loop%s:%s" % (ordn, label), 'proofstep', t, node)
                 s.assume(t)
             for gname, upd in (lc.get('ghost_update') or {}).items():
                 s.env[gname] = eval_clause(eng, upd, s.env, s, old=(f.entry_env, f.entry_heap))
@@ -745,5 +757,5 @@ def st_While(eng, node, st):
 
     def guard(s):
         v = eng.ev(node.test, s)
-        return truth(v) if v.k != 'bool' else v.t
+        return eng.truth_of(s, v) if v.k != 'bool' else v.t
     return run_loop(eng, node, st, ordn, lc, None, None, guard, lambda s: None, lambda s: None)
